@@ -2,6 +2,7 @@ CONSTANTS Menu = "C07"
  MaxTail = 2
  Layouts = {"siblings", "nested", "root"}
  AllPlants = TRUE
+ Lite = FALSE
  Flavours <- Flav_plain
 INIT HInit
 NEXT HNext
